@@ -1736,4 +1736,226 @@ theorem ticked_erasure_converse (hmax : cfg.maxStatements = 0) (B : List SStmt) 
 
 end Converse2
 
+/-! ## T3 and T4, both directions together -/
+
+section Main
+variable {cfg : Config W} {scfg : SConfig W} {start : FnId → Nat} (ag : Agree cfg scfg start)
+  (htb : TruthyBool cfg.host) (hhost : HostNoReserved cfg.host) (htab : TablesOK scfg)
+include ag htb hhost htab
+
+/-- **T3 `ticked_erasure`** (unlimited budget `maxStatements = 0`).  For every structured program `B` (any size, any
+nesting) with `ProgOK B`, every table of structured function definitions with `TablesOK`, every host with
+`TruthyBool` and `HostNoReserved`, and related start states (`StRel`: same world, same user-visible globals — the hidden
+`__bareScript…` entries and the statement counter are ignored):
+
+* whenever the ticked run terminates, the pure run terminates (for every sufficiently large fuel) with the same kind of
+  outcome — normal end / `return` of the same value / the same runtime error — and a related final state
+  (same world = same log and heap, same user-visible globals);
+* conversely, whenever the pure run terminates, the ticked run terminates (for every sufficiently large fuel) with such
+  a result. -/
+theorem ticked_erasure (hmax : cfg.maxStatements = 0) (B : List SStmt) (hB : ProgOK B) (base : Option String)
+    (st st' : State W) (hs : StRel st st') :
+    (∀ fuel, runT₀ cfg fuel B base st ≠ .oof →
+      ∃ r', ResRel (runT₀ cfg fuel B base st) r' ∧ ∃ N, ∀ k, N ≤ k → runS scfg k B st' = r') ∧
+    (∀ k, runS scfg k B st' ≠ .oof →
+      ∃ r, ResRel r (runS scfg k B st') ∧ ∃ N, ∀ f, N ≤ f → runT₀ cfg f B base st = r) :=
+  ⟨fun fuel h => ticked_erasure_forward ag htb hhost htab hmax B hB fuel base st st' hs h,
+   fun k h => ticked_erasure_converse ag htb hhost htab hmax B hB k base st st' hs h⟩
+
+/-- the two readings terminate on the same inputs -/
+theorem termination_iff (hmax : cfg.maxStatements = 0) (B : List SStmt) (hB : ProgOK B) (base : Option String)
+    (st st' : State W) (hs : StRel st st') :
+    (∃ fuel, runT₀ cfg fuel B base st ≠ .oof) ↔ (∃ k, runS scfg k B st' ≠ .oof) := by
+  have h := ticked_erasure ag htb hhost htab hmax B hB base st st' hs
+  constructor
+  · rintro ⟨fuel, hf⟩
+    obtain ⟨r', hr, N, hN⟩ := h.1 fuel hf
+    refine ⟨N, ?_⟩
+    rw [hN N (Nat.le_refl N)]
+    intro he; subst he
+    cases hT : runT₀ cfg fuel B base st <;> rw [hT] at hr <;> exact hr
+  · rintro ⟨k, hk⟩
+    obtain ⟨r, hr, N, hN⟩ := h.2 k hk
+    refine ⟨N, ?_⟩
+    rw [hN N (Nat.le_refl N)]
+    intro he; subst he
+    exact hr
+
+/-- **T4 `parse_exec_structured`** (unlimited budget).  For every structured program `B` satisfying the hypotheses the
+lines a user writes for `B` parse, to a statement list `P` on which `execute_script` (the real machine, with its label
+cache) agrees with the pure source-level reading `execS B` in both directions: whenever one of the two terminates, the
+other terminates for every sufficiently large fuel with the same kind of outcome, the same returned value / runtime
+error, the same world (log, heap, …) and the same user-visible globals.
+Composition of T1 (`parseLines_render`), C08 (`cache_transparent`), T2 (`execute₀_lowered`) and T3. -/
+theorem parse_exec_structured_iff (hmax : cfg.maxStatements = 0) (B : List SStmt) (hB : ProgOK B) (hfid : FidsInOrder B)
+    (base : Option String) (st st' : State W) (hs : StRel st st') :
+    ∃ P, parseLines (renderB B) = .ok P ∧
+      (∀ fuel, execute cfg fuel P base st ≠ .oof →
+        ∃ r', ResRel (execute cfg fuel P base st) r' ∧ ∃ N, ∀ k, N ≤ k → runS scfg k B st' = r') ∧
+      (∀ k, runS scfg k B st' ≠ .oof →
+        ∃ r, ResRel r (runS scfg k B st') ∧ ∃ N, ∀ f, N ≤ f → execute cfg f P base st = r) := by
+  have hP := parseLines_render B hB.wellNested hfid (incB_of_noInclude B hB.noInclude)
+  have hE : ∀ fuel, execute cfg fuel (lowerProgram B) base st = runT₀ cfg fuel B base { st with count := 0 } := by
+    intro fuel; rw [C08.execute_eq, execute₀_lowered cfg base B hB.noRaw]
+  have h := ticked_erasure ag htb hhost htab hmax B hB base { st with count := 0 } st' hs
+  refine ⟨lowerProgram B, hP, fun fuel hf => ?_, fun k hk => ?_⟩
+  · rw [hE] at hf ⊢; exact h.1 fuel hf
+  · obtain ⟨r, hr, N, hN⟩ := h.2 k hk
+    exact ⟨r, hr, N, fun f hf => by rw [hE]; exact hN f hf⟩
+
+end Main
+
+/-! ## finding F7 and non-vacuity, on a tiny host the kernel can evaluate -/
+
+namespace Tiny
+
+/-- world = the log -/
+abbrev TW := List Value
+
+def truthy : Value → TW → Bool
+  | .bool b, _ => b
+  | .num q, _ => q != 0
+  | .null, _ => false
+  | _, _ => true
+
+def binop : BinOp → Value → Value → TW → Value
+  | .add, .num x, .num y, _ => .num (x + y)
+  | .lt, .num x, .num y, _ => .bool (x < y)
+  | .eq, .num x, .num y, _ => .bool (x == y)
+  | _, _, _, _ => .null
+
+/-- `log(v…)` appends to the log; an "array" is a number `n` standing for `[0, …, n-1]`:
+`arrayLength(n) = n`, `arrayGet(n, i) = i` -/
+def lib (name : String) (args : List Value) (w : TW) : LibTree TW :=
+  if name = "log" then .ret (.ok .null) (w ++ args)
+  else if name = "arrayLength" then .ret (.ok (args.head?.getD .null)) w
+  else if name = "arrayGet" then .ret (.ok ((args.tail.head?).getD .null)) w
+  else .ret (.fail .null) w
+
+def host : Host TW :=
+  { truthy := truthy, binop := binop, neg := id, lib := lib, other := fun _ _ w => .ret (.fail .null) w,
+    notCallable := fun _ w => w, logFailure := id, newArray := fun _ w => (.null, w), builtin := fun _ => none }
+
+theorem host_truthyBool : TruthyBool host := fun b w => rfl
+
+theorem host_noReserved : HostNoReserved host := by
+  refine ⟨fun name args w => ?_, fun k args w => TreeOK.ret _ _⟩
+  show TreeOK (lib name args w)
+  unfold lib
+  split
+  · exact TreeOK.ret _ _
+  split
+  · exact TreeOK.ret _ _
+  split <;> exact TreeOK.ret _ _
+
+private def u (s : String) : Name := .user s
+private def var (s : String) : Expr := .variable (u s)
+private def call (f : String) (args : List Expr) : Expr := .function (u f) args
+
+def st0 : State TW :=
+  { globals := [(u "log", .fn (.lib "log")), (u "arrayLength", .fn (.lib "arrayLength")),
+                (u "arrayGet", .fn (.lib "arrayGet"))],
+    world := [], count := 0 }
+
+def resWorld {W : Type} : Res W → Option W
+  | .done s => some s.world
+  | .ret _ s => some s.world
+  | .err _ s => some s.world
+  | .oof => none
+
+/-! ### F7: `continue` in a `while` -/
+
+/-- `i = 0; while i < 1: (i = i + 1; log(i); if i < 3: continue)` -/
+def f7Prog : List SStmt := [
+  .expr (some (u "i")) (.number 0),
+  .while (.binary .lt (var "i") (.number 1)) [
+    .expr (some (u "i")) (.binary .add (var "i") (.number 1)),
+    .expr none (call "log" [var "i"]),
+    .ite (.binary .lt (var "i") (.number 3)) [.cont] .none ] ]
+
+def f7Cfg : Config TW := { host := host, funs := fun _ => none, maxStatements := 0 }
+def f7SCfg : SConfig TW := { host := host, sfuns := fun _ => none }
+
+/-- **finding F7 `while_continue_counterexample`**: on a program with a `continue` whose innermost loop is a `while`
+(the only hypothesis of `ProgOK` it violates) the two semantics genuinely differ: the pure reading re-tests the condition
+after `continue` and logs `1`; the ticked semantics — hence, by T2, the jump machine on the lowered code — restarts the
+body without the test and logs `1 2 3`. -/
+theorem while_continue_counterexample :
+    NoWhileContinueB false f7Prog = false ∧
+    resWorld (runS f7SCfg 100 f7Prog st0) = some [.num 1] ∧
+    resWorld (runT₀ f7Cfg 100 f7Prog none st0) = some [.num 1, .num 2, .num 3] ∧
+    resWorld (execute₀ f7Cfg 100 (lowerProgram f7Prog) none st0) = some [.num 1, .num 2, .num 3] := by
+  refine ⟨by decide, by decide +kernel, by decide +kernel, ?_⟩
+  rw [execute₀_lowered f7Cfg none f7Prog (by simp [f7Prog, NoRawB, NoRawS, NoRawE])]
+  decide +kernel
+
+/-! ### non-vacuity: `if / elif / else` in a `while`, and a `for` with `continue`, in a function -/
+
+/-- `function f(n): k = 0; acc = 0; while k < n: (if k == 0: acc = acc + 1 elif k == 1: acc = acc + 10 else: acc = acc + 100;
+k = k + 1); for x in 3: (if x == 1: continue; log(x)); return acc` -/
+def fBody : List SStmt := [
+  .expr (some (u "k")) (.number 0),
+  .expr (some (u "acc")) (.number 0),
+  .while (.binary .lt (var "k") (var "n")) [
+    .ite (.binary .eq (var "k") (.number 0)) [.expr (some (u "acc")) (.binary .add (var "acc") (.number 1))]
+      (.elif (.binary .eq (var "k") (.number 1)) [.expr (some (u "acc")) (.binary .add (var "acc") (.number 10))]
+        (.els [.expr (some (u "acc")) (.binary .add (var "acc") (.number 100))])),
+    .expr (some (u "k")) (.binary .add (var "k") (.number 1)) ],
+  .for (u "x") none (.number 3) [
+    .ite (.binary .eq (var "x") (.number 1)) [.cont] .none,
+    .expr none (call "log" [var "x"]) ],
+  .ret (some (var "acc")) ]
+
+def fDef : SFuncDef := { name := u "f", args := [u "n"], lastArgArray := false, body := fBody }
+
+/-- `function f … ; r = f(3); log(r)` -/
+def nvProg : List SStmt := [
+  .func 0 (u "f") [u "n"] false false fBody,
+  .expr (some (u "r")) (call "f" [.number 3]),
+  .expr none (call "log" [var "r"]) ]
+
+def nvSCfg : SConfig TW := { host := host, sfuns := fun id => if id = 0 then some fDef else none }
+def nvStart : FnId → Nat := fun _ => 0
+def nvCfg : Config TW :=
+  { host := host, funs := fun id => (nvSCfg.sfuns id).map (lowerDef (nvStart id)), maxStatements := 0 }
+
+theorem nv_agree : Agree nvCfg nvSCfg nvStart := ⟨rfl, rfl, rfl, fun _ => rfl⟩
+
+theorem nv_progOK : ProgOK nvProg :=
+  ⟨by simp [nvProg, fBody, NoRawB, NoRawS, NoRawE], by decide, by decide, by decide, by decide⟩
+
+theorem nv_tablesOK : TablesOK nvSCfg := by
+  intro id d hd
+  simp only [nvSCfg] at hd
+  split at hd
+  · cases hd
+    exact ⟨by simp [fDef, fBody, NoRawB, NoRawS, NoRawE], by decide, by decide, by decide, by decide, by decide⟩
+  · cases hd
+
+/-- the hypotheses of T3 / T4 are inhabited by a non-trivial instance -/
+example (base : Option String) (st' : State TW) (hs : StRel st0 st') :=
+  ticked_erasure nv_agree host_truthyBool host_noReserved nv_tablesOK rfl nvProg nv_progOK base st0 st' hs
+example (base : Option String) (st' : State TW) (hs : StRel st0 st') :=
+  parse_exec_structured_iff nv_agree host_truthyBool host_noReserved nv_tablesOK rfl nvProg nv_progOK (by decide) base st0 st' hs
+
+/-- the pure reading: `f(3)` logs `0`, `2` (the `for` skips `1`), returns 111, which the script logs -/
+example : resWorld (runS nvSCfg 100 nvProg st0) = some [.num 0, .num 2, .num 111] := by decide +kernel
+
+/-- … and so does the label-caching jump machine on the parsed text: by the theorem, not by running it -/
+example : ∃ P, parseLines (renderB nvProg) = .ok P ∧
+    ∃ N, ∀ f, N ≤ f → resWorld (execute nvCfg f P none st0) = some [.num 0, .num 2, .num 111] := by
+  obtain ⟨P, hP, _, hconv⟩ := parse_exec_structured_iff nv_agree host_truthyBool host_noReserved nv_tablesOK rfl nvProg
+    nv_progOK (by decide) none st0 st0 (StRel.refl st0)
+  have hS : resWorld (runS nvSCfg 100 nvProg st0) = some [.num 0, .num 2, .num 111] := by decide +kernel
+  have hne : runS nvSCfg 100 nvProg st0 ≠ .oof := by intro h; rw [h] at hS; cases hS
+  obtain ⟨r, hr, N, hN⟩ := hconv 100 hne
+  refine ⟨P, hP, N, fun f hf => ?_⟩
+  rw [hN f hf]
+  cases r <;> cases hR : runS nvSCfg 100 nvProg st0 <;> rw [hR] at hr hS <;> simp only [ResRel] at hr
+  · simp only [resWorld] at hS ⊢; rw [hr.1]; exact hS
+  · simp only [resWorld] at hS ⊢; rw [hr.2.1]; exact hS
+  · simp only [resWorld] at hS ⊢; rw [hr.2.1]; exact hS
+
+end Tiny
+
 end C01
